@@ -407,6 +407,15 @@ def build_match(s, arms, guarded=False):
         fv = by.get("False", by.get("'_'"))
         return mk_ite(s, tv, fv)
     if not guarded and len(arms) == 2 and isinstance(s, Poly):
+        sa_ = single_atom(s)
+        if sa_ is not None and atom_fn(sa_) == "bool_to_option":
+            # match c.then_some(..)-like option { Some(_) => x, None => y } is if c { x } else { y }
+            by_ = dict(arms)
+            some_ = [k for k in by_ if k.startswith("('Some'")]
+            none_ = [k for k in by_ if k not in some_]
+            if len(some_) == 1 and len(none_) == 1:
+                return mk_ite(unkey(atom_args(sa_)[0]), by_[some_[0]], by_[none_[0]])
+    if not guarded and len(arms) == 2 and isinstance(s, Poly):
         by = {k.split(",")[0]: v for k, v in arms}
         if set(by) == {"('Ok'", "('Err'"} and all(isinstance(v, tuple) and len(v) == 2 and v[0] == "bool" for v in by.values()) \
                 and by["('Ok'"][1] != by["('Err'"][1]:
@@ -1018,6 +1027,10 @@ class SymEval:
             if isinstance(second, tuple) and second and second[0] in ("closure", "fn"):
                 second = self.apply(second, [])
             return app("ordering_then", args[0], second)
+        mm0 = STD_NUM_RX.match(path or "")
+        if mm0 and mm0.group(2) == "checked_sub" and len(args) == 2 and isinstance(args[0], Poly) and isinstance(args[1], Poly) and "impl u" in path:
+            # a.checked_sub(b) on unsigned integers: Some(a - b) exactly when b <= a
+            return ("opt", app("bool_to_option", self.arith("Le", args[1], args[0])), args[0] - args[1])
         mm = STD_NUM_RX.match(path or "")
         if mm:
             name = mm.group(2)
@@ -1366,6 +1379,14 @@ def _eval_atom(a, env):
         return int(bool(ev(args[0])) or bool(ev(args[1])))
     if fn == "not":
         return int(not bool(ev(args[0])))
+    if fn == "match":
+        # match on an integer / boolean subject with literal and catch-all arms
+        subj = ev(args[0])
+        for key, val in args[1]:
+            k = key.strip("'")
+            if k == "_" or (k.lstrip("-").isdigit() and int(k) == subj) or (k in ("True", "False") and (k == "True") == bool(subj)):
+                return ev(val)
+        raise NotEvaluable("no arm for %r" % (subj,))
     if fn in ("bitxor", "bitand", "bitor"):
         x, y = int(ev(args[0])), int(ev(args[1]))
         return {"bitxor": x ^ y, "bitand": x & y, "bitor": x | y}[fn]
